@@ -31,7 +31,7 @@ Section Proofs.
   Notation run := (run addr_eqb sess_new sess_input sess_conv gate_ok).
   Notation new_accepts := (new_accepts addr_eqb sess_new sess_input sess_conv gate_ok).
   Notation created_log := (created_log addr_eqb sess_new sess_input sess_conv gate_ok).
-  Notation accepted_log := (accepted_log addr_eqb sess_new sess_input sess_conv gate_ok).
+  Notation dequeued_log := (dequeued_log addr_eqb sess_new sess_input sess_conv gate_ok).
   Notation creation_events_at := (creation_events_at addr_eqb sess_new sess_input sess_conv gate_ok).
   Notation count_at := (count_at addr_eqb).
   Notation fed_by := (fed_by addr_eqb gate_ok).
@@ -107,7 +107,7 @@ Section Proofs.
     destruct (conv =? sess_conv (e_sess e)); simpl; auto. discriminate.
   Qed.
 
-  Lemma backlog_full_reset_at : forall (l : listener) a, backlog_full (reset_at l a) = backlog_full l.
+  Lemma backlog_full_reset_at : forall (l : listener) a, no_room (reset_at l a) = no_room l.
   Proof.
     intros. unfold reset_at, Listener.reset_close. destruct (lookup a (sessions l)); auto.
     destruct (e_dead e); auto.
@@ -138,7 +138,7 @@ Section Proofs.
   Qed.
 
   Lemma sessions_create : forall (l : listener) conv data a,
-      backlog_full l = false ->
+      no_room l = false ->
       sessions (create l conv data a) =
       set_key addr_eqb a (mkE (next_id l) false (sess_input (sess_new conv a) data)) (sessions l).
   Proof. intros. unfold Listener.create. rewrite H. auto. Qed.
@@ -148,7 +148,7 @@ Section Proofs.
   Proof.
     intros. rewrite packet_input_spec.
     destruct (wants_session l raw a) as [[conv data]|].
-    - destruct (backlog_full l) eqn:Hb.
+    - destruct (no_room l) eqn:Hb.
       + unfold Listener.create. rewrite backlog_full_reset_at, Hb. apply others_reset_at.
       + rewrite sessions_create by (rewrite backlog_full_reset_at; auto).
         rewrite (others_set addr_eqb addr_eqb_spec). apply others_reset_at.
@@ -167,7 +167,7 @@ Section Proofs.
     intros. rewrite packet_input_spec.
     destruct (wants_session l raw a) as [[conv data]|].
     - unfold Listener.create. destruct (reset_at_fields l a) as [_ [_ [H1 H2]]].
-      destruct (backlog_full (reset_at l a)); auto.
+      destruct (no_room (reset_at l a)); auto.
     - destruct (fed_to l raw a) as [[e data]|]; auto.
   Qed.
 
@@ -181,13 +181,13 @@ Section Proofs.
     destruct (wants_session l raw a) as [[conv data]|].
     - unfold Listener.create. rewrite backlog_full_reset_at.
       destruct (reset_at_fields l a) as [H1 [H2 _]].
-      destruct (backlog_full l); simpl; rewrite ?app_nil_r, ?H1, ?H2; split; auto; lia.
+      destruct (no_room l); simpl; rewrite ?app_nil_r, ?H1, ?H2; split; auto; lia.
     - destruct (fed_to l raw a) as [[e data]|]; simpl; rewrite app_nil_r; split; auto; lia.
   Qed.
 
   (* a creation event installs, under a, the fresh session fed with the creating datagram *)
   Lemma creation_installs : forall (l : listener) raw a conv data,
-      wants_session l raw a = Some (conv, data) -> backlog_full l = false ->
+      wants_session l raw a = Some (conv, data) -> no_room l = false ->
       lookup a (sessions (l_packet_input l raw a)) =
       Some (mkE (next_id l) false (sess_input (sess_new conv a) data)).
   Proof.
@@ -215,7 +215,7 @@ Section Proofs.
     - right. unfold Listener.creation_event in E.
       destruct (wants_session l raw a) as [[conv data]|] eqn:W; try discriminate.
       exists conv, data. split; [auto|]. split; [lia|].
-      apply creation_installs; auto. destruct (backlog_full l); auto; discriminate.
+      apply creation_installs; auto. destruct (no_room l); auto; discriminate.
     - left. rewrite app_nil_r in Ha. split; auto; lia.
   Qed.
 
@@ -318,8 +318,9 @@ Section Proofs.
   Lemma inv_create : forall (l : listener) conv data a, inv l -> inv (create l conv data a).
   Proof.
     intros l conv data a Hi. unfold Listener.create.
-    destruct (backlog_full l) eqn:Hb; auto.
+    destruct (no_room l) eqn:Hb; auto.
     destruct Hi as [H1 H2 H3 H4 H5 H6 H7 H8].
+    unfold Listener.no_room in Hb. apply orb_false_iff in Hb. destruct Hb as [_ Hb].
     unfold Listener.backlog_full in Hb. apply Z.leb_gt in Hb.
     assert (Hnew_t : ~ In (next_id l) (tids l)) by (intro H; apply H4 in H; lia).
     assert (Hnew_q : ~ In (next_id l) (qids l)) by (intro H; apply H5 in H; lia).
@@ -413,14 +414,22 @@ Section Proofs.
     - apply (inv_set_pending l). auto.
   Qed.
 
+  Lemma inv_backlog_close : forall (l : listener), inv l -> inv (l_backlog_close addr_eqb l).
+  Proof.
+    intros l Hi. pose proof (inv_accept l Hi) as Ha. unfold Listener.l_backlog_close.
+    unfold l_accept in Ha. destruct (accepts l) as [|[a id] r]; auto.
+    apply inv_close_begin. exact Ha.
+  Qed.
+
   Lemma inv_step : forall (l : listener) ev, inv l -> inv (step l ev).
   Proof.
-    intros l [raw a| |id|id|] Hi; simpl.
+    intros l [raw a| |id|id| |] Hi; simpl.
     - apply inv_packet_input; auto.
     - apply inv_accept; auto.
     - apply inv_close_begin; auto.
     - apply inv_close_end; auto.
     - destruct Hi. constructor; auto.
+    - apply inv_backlog_close; auto.
   Qed.
 
   Theorem inv_run : forall evs (l : listener), inv l -> inv (run l evs).
@@ -449,7 +458,7 @@ Section Proofs.
   Proof.
     induction evs as [|ev r IH]; intros l a; simpl; auto.
     rewrite count_at_app, IH. f_equal.
-    destruct ev as [raw b| | | |]; auto.
+    destruct ev as [raw b| | | | |]; auto.
     rewrite new_accepts_spec. destruct (creation_event l raw b); simpl.
     - unfold Listener.count_at. simpl. destruct (addr_eqb b a); auto.
     - rewrite andb_false_r. auto.
@@ -458,9 +467,10 @@ Section Proofs.
   Lemma reset_at_absent : forall (l : listener) a, lookup a (sessions l) = None -> reset_at l a = l.
   Proof. intros. unfold reset_at. rewrite H. auto. Qed.
 
-  (* a new peer's datagram when the backlog is full changes nothing at all *)
+  (* a new peer's datagram when the backlog is full (or the listener closed) changes nothing
+     at all *)
   Theorem full_backlog_no_state : forall (l : listener) raw a,
-      lookup a (sessions l) = None -> backlog_full l = true -> l_packet_input l raw a = l.
+      lookup a (sessions l) = None -> no_room l = true -> l_packet_input l raw a = l.
   Proof.
     intros l raw a Hn Hb. rewrite packet_input_spec.
     destruct (wants_session l raw a) as [[conv data]|].
@@ -476,30 +486,34 @@ Section Proofs.
     intros l raw a Hn Hc. rewrite packet_input_spec. unfold Listener.creation_event in Hc.
     destruct (wants_session l raw a) as [[conv data]|].
     - rewrite reset_at_absent by auto. unfold Listener.create.
-      destruct (backlog_full l); try discriminate. auto.
+      destruct (no_room l); try discriminate. auto.
     - unfold fed_to. destruct (gate_ok raw); auto. destruct (too_short b); auto. rewrite Hn. auto.
   Qed.
 
-  Lemma accept_conservation_step : forall (l : listener) ev,
-      (match ev with
-       | EvAccept => match fst (l_accept l) with Some x => [x] | None => [] end
-       | _ => []
-       end) ++ accepts (step l ev) = accepts l ++ new_accepts l ev.
+  Lemma accepts_close_begin : forall (l : listener) id, accepts (l_close_begin l id) = accepts l.
   Proof.
-    intros l [raw a| |id|id|].
+    intros. unfold Listener.l_close_begin.
+    destruct (key_of_id id (sessions l)) as [[a e]|]; auto. destruct (e_dead e); auto.
+  Qed.
+
+  Lemma accept_conservation_step : forall (l : listener) ev,
+      dequeued l ev ++ accepts (step l ev) = accepts l ++ new_accepts l ev.
+  Proof.
+    intros l [raw a| |id|id| |].
     - rewrite new_accepts_spec. destruct (step_accepts l raw a) as [H _]. simpl. exact H.
     - destruct l as [t q n c p]. unfold l_accept. simpl. destruct q; simpl; rewrite ?app_nil_r; auto.
-    - simpl. rewrite app_nil_r. unfold Listener.l_close_begin.
-      destruct (key_of_id id (sessions l)) as [[a e]|]; auto. destruct (e_dead e); auto.
+    - simpl. rewrite app_nil_r. apply accepts_close_begin.
     - simpl. rewrite app_nil_r. unfold Listener.l_close_end.
       destruct (pending_addr id (pending l)); auto.
     - simpl. rewrite app_nil_r. auto.
+    - destruct l as [t q n c p]. simpl. rewrite app_nil_r. unfold Listener.l_backlog_close. simpl.
+      destruct q as [|[a id] r]; auto. simpl. rewrite accepts_close_begin. auto.
   Qed.
 
-  (* every session ever queued is handed out by Accept exactly in creation order, or is still
-     queued *)
+  (* every session ever queued leaves the queue - through Accept or through Listener.Close -
+     exactly in creation order, or is still queued *)
   Theorem accept_conservation : forall evs (l : listener),
-      accepted_log l evs ++ accepts (run l evs) = accepts l ++ created_log l evs.
+      dequeued_log l evs ++ accepts (run l evs) = accepts l ++ created_log l evs.
   Proof.
     induction evs as [|ev r IH]; intros l; simpl.
     - rewrite app_nil_r. auto.
@@ -508,18 +522,22 @@ Section Proofs.
 
   Lemma next_id_step_mono : forall (l : listener) ev, next_id l <= next_id (step l ev).
   Proof.
-    intros l [raw a| |id|id|]; simpl; try lia.
+    assert (Hcb : forall (l : listener) id, next_id (l_close_begin l id) = next_id l).
+    { intros l id. unfold Listener.l_close_begin. destruct (key_of_id id (sessions l)) as [[a e]|]; auto.
+      destruct (e_dead e); auto. }
+    intros l [raw a| |id|id| |]; simpl; try lia.
     - destruct (step_accepts l raw a) as [_ H]. rewrite H. destruct (creation_event l raw a); lia.
     - unfold l_accept. destruct (accepts l); simpl; lia.
-    - unfold Listener.l_close_begin. destruct (key_of_id id (sessions l)) as [[a e]|]; simpl; try lia.
-      destruct (e_dead e); simpl; lia.
+    - rewrite Hcb. lia.
     - unfold Listener.l_close_end. destruct (pending_addr id (pending l)); simpl; lia.
+    - unfold Listener.l_backlog_close. destruct (accepts l) as [|[a id] r]; try lia.
+      rewrite Hcb. simpl. lia.
   Qed.
 
   Lemma new_accepts_ids : forall (l : listener) ev x,
       In x (new_accepts l ev) -> snd x = next_id l /\ next_id (step l ev) = next_id l + 1.
   Proof.
-    intros l [raw a| |id|id|] x; try (simpl; contradiction).
+    intros l [raw a| |id|id| |] x; try (simpl; contradiction).
     rewrite new_accepts_spec. destruct (step_accepts l raw a) as [_ H].
     destruct (creation_event l raw a); simpl; try contradiction.
     intros [Hx|[]]. subst. simpl. split; auto.
@@ -543,7 +561,7 @@ Section Proofs.
       apply created_ids_lower in Hz2.
       assert (Hx : In x (new_accepts l ev)) by (rewrite E; simpl; auto).
       apply new_accepts_ids in Hx. lia.
-    - exfalso. destruct ev as [raw a| | | |]; try (simpl in E; discriminate).
+    - exfalso. destruct ev as [raw a| | | | |]; try (simpl in E; discriminate).
       rewrite new_accepts_spec in E.
       destruct (creation_event l raw a); discriminate.
   Qed.
@@ -558,7 +576,7 @@ Section Proofs.
   Qed.
 
   Theorem accepted_nodup : forall evs (l : listener),
-      inv l -> NoDup (map snd (accepted_log l evs ++ accepts (run l evs))).
+      inv l -> NoDup (map snd (dequeued_log l evs ++ accepts (run l evs))).
   Proof.
     intros evs l Hi. rewrite accept_conservation, map_app.
     apply NoDup_app_intro; [apply (inv_qnodup l Hi) | apply created_ids_nodup |].
@@ -578,10 +596,10 @@ Section Proofs.
       (sn <> 0 /\ l' = l) \/
       (* first packet, no room in the backlog: the old session is closed (unless an
          application Close of it is already under way), nothing is created *)
-      (sn = 0 /\ backlog_full l = true /\ l' = reset_close l a e /\
+      (sn = 0 /\ no_room l = true /\ l' = reset_close l a e /\
        (e_dead e = false -> lookup a (sessions l') = None)) \/
       (* first packet, room: replaced by a fresh session fed with this datagram only *)
-      (sn = 0 /\ backlog_full l = false /\
+      (sn = 0 /\ no_room l = false /\
        lookup a (sessions l') = Some (mkE (next_id l) false (sess_input (sess_new conv a) data)) /\
        accepts l' = accepts l ++ [(a, next_id l)] /\
        others a (sessions l') = others a (sessions l)).
@@ -595,9 +613,9 @@ Section Proofs.
     apply Z.eqb_neq in Hc. rewrite Hc.
     destruct (sn =? 0) eqn:Esn; simpl.
     - apply Z.eqb_eq in Esn. intro Hfr. right. specialize (Hw Esn).
-      assert (Hbf : backlog_full (reset_close l a e) = backlog_full l).
+      assert (Hbf : no_room (reset_close l a e) = no_room l).
       { unfold Listener.reset_close. destruct (e_dead e); auto. }
-      destruct (backlog_full l) eqn:Hb.
+      destruct (no_room l) eqn:Hb.
       + left. unfold Listener.create. rewrite Hbf. repeat split; auto.
         intro Hd. unfold Listener.reset_close. rewrite Hd. simpl.
         apply (lookup_remove_same addr_eqb).
@@ -648,7 +666,7 @@ Section Proofs.
 
   (* a new peer with room: exactly one session, exactly one queue entry *)
   Theorem new_peer_one_accept : forall (l : listener) raw a conv data,
-      wants_session l raw a = Some (conv, data) -> backlog_full l = false ->
+      wants_session l raw a = Some (conv, data) -> no_room l = false ->
       let l' := l_packet_input l raw a in
       creation_event l raw a = true /\
       accepts l' = accepts l ++ [(a, next_id l)] /\
@@ -690,13 +708,38 @@ Section Proofs.
     | _, _ => False
     end.
 
+  (* the first step of a Close changes no identity and no session state, at any address *)
+  Lemma close_begin_lookup : forall (l : listener) id a,
+      NoDup (map fst (sessions l)) ->
+      match lookup a (sessions l), lookup a (sessions (l_close_begin l id)) with
+      | Some e, Some e' => e_id e' = e_id e /\ e_sess e' = e_sess e
+      | None, None => True
+      | _, _ => False
+      end.
+  Proof.
+    intros l id a Hnd. unfold Listener.l_close_begin.
+    assert (Hsame : match lookup a (sessions l), lookup a (sessions l) with
+                    | Some e, Some e' => e_id e' = e_id e /\ e_sess e' = e_sess e
+                    | None, None => True
+                    | _, _ => False
+                    end) by (destruct (lookup a (sessions l)); auto).
+    destruct (key_of_id id (sessions l)) as [[k x]|] eqn:K; auto.
+    destruct (e_dead x); auto. simpl.
+    apply key_of_id_lookup in K; auto. destruct K as [Hk Hid].
+    destruct (addr_eqb a k) eqn:Eak.
+    - apply addr_eqb_spec in Eak. subst k. rewrite Hk.
+      rewrite (lookup_replace_same addr_eqb a _ _ x Hk). simpl. auto.
+    - rewrite lookup_replace_other; auto.
+      intro. subst. rewrite eqb_refl in Eak. discriminate.
+  Qed.
+
   Theorem removal_only_by_own_close_or_reset : forall (l : listener) ev a e,
       inv l -> lookup a (sessions l) = Some e ->
       same_session (Some e) (lookup a (sessions (step l ev))) \/
       ev = EvCloseEnd (e_id e) \/
       (exists raw conv data, ev = EvPacket raw a /\ wants_session l raw a = Some (conv, data)).
   Proof.
-    intros l ev a e Hi He. destruct ev as [raw b| |id|id|]; simpl.
+    intros l ev a e Hi He. destruct ev as [raw b| |id|id| |]; simpl.
     - destruct (addr_eqb b a) eqn:Eab.
       + apply addr_eqb_spec in Eab. subst b. rewrite packet_input_spec.
         destruct (wants_session l raw a) as [[conv data]|] eqn:W.
@@ -708,15 +751,8 @@ Section Proofs.
       + left. rewrite frame_lookup, He. simpl. auto.
         intro. subst. rewrite eqb_refl in Eab. discriminate.
     - left. unfold l_accept. destruct (accepts l); simpl; rewrite He; simpl; auto.
-    - left. unfold Listener.l_close_begin.
-      destruct (key_of_id id (sessions l)) as [[k x]|] eqn:K; [|rewrite He; simpl; auto].
-      destruct (e_dead x); [rewrite He; simpl; auto|]. simpl.
-      apply key_of_id_lookup in K; [|apply (inv_keys l Hi)]. destruct K as [Hk Hid].
-      destruct (addr_eqb a k) eqn:Eak.
-      * apply addr_eqb_spec in Eak. subst k. rewrite He in Hk. inversion Hk; subst x.
-        rewrite (lookup_replace_same addr_eqb a _ _ e He). simpl. auto.
-      * rewrite lookup_replace_other, He; [simpl; auto|].
-        intro. subst. rewrite eqb_refl in Eak. discriminate.
+    - left. pose proof (close_begin_lookup l id a (inv_keys l Hi)) as H. rewrite He in H.
+      destruct (lookup a (sessions (l_close_begin l id))); simpl; tauto.
     - unfold Listener.l_close_end.
       destruct (pending_addr id (pending l)) as [k|]; [|left; rewrite He; simpl; auto]. simpl.
       destruct (addr_eqb a k) eqn:Eak.
@@ -728,6 +764,11 @@ Section Proofs.
         left. destruct (lookup k (sessions l)) as [x|]; [|rewrite He; simpl; auto].
         destruct (e_id x =? id); [rewrite lookup_remove_other by auto|]; rewrite He; simpl; auto.
     - left. rewrite He. simpl. auto.
+    - left. unfold Listener.l_backlog_close. destruct (accepts l) as [|[k id] r] eqn:Ea.
+      + rewrite He. simpl. auto.
+      + pose proof (close_begin_lookup (mkL (sessions l) r (next_id l) (closed l) (pending l)) id a (inv_keys l Hi)) as H.
+        simpl in H. rewrite He in H.
+        destruct (lookup a (sessions (l_close_begin (mkL (sessions l) r (next_id l) (closed l) (pending l)) id))); simpl; tauto.
   Qed.
 
   (* history form: a session that is never the target of a Close and whose address never
@@ -777,7 +818,7 @@ Section Proofs.
       (exists pre raw post data,
           evs = pre ++ EvPacket raw a :: post /\
           wants_session (run l0 pre) raw a = Some (c, data) /\
-          backlog_full (run l0 pre) = false /\
+          no_room (run l0 pre) = false /\
           i = next_id (run l0 pre) /\
           s = fold_left sess_input (fed_seq a c post) (sess_input (sess_new c a) data)).
 
@@ -842,11 +883,11 @@ Section Proofs.
         { intros e1 H1 Hid Hs Hf. destruct (IH l0 a e1 Hi0 H1) as [c Hh]. exists c.
           pose proof (hist_extend l0 evs a _ _ c ev Hh) as Hx.
           rewrite (Hf c (hist_conv _ _ _ _ _ _ Hh)) in Hx. simpl in Hx. rewrite Hid, Hs. exact Hx. }
-        destruct ev as [raw b| |id|id|].
+        destruct ev as [raw b| |id|id| |].
         + destruct (addr_eqb b a) eqn:Eab.
           * apply addr_eqb_spec in Eab. subst b. simpl in He. rewrite packet_input_spec in He.
             destruct (wants_session l raw a) as [[conv data]|] eqn:W.
-            { destruct (backlog_full l) eqn:Hb.
+            { destruct (no_room l) eqn:Hb.
               - unfold Listener.create in He. rewrite backlog_full_reset_at, Hb in He.
                 (* nothing is created; what is under a afterwards was there before (a session
                    of another conversation whose Close is under way): it is fed nothing *)
@@ -877,22 +918,22 @@ Section Proofs.
             apply (Hsame e); auto. intros. simpl. rewrite Eab. auto.
         + apply (Hsame e); auto.
           revert He. simpl. unfold l_accept. destruct (accepts l); auto.
-        + revert He. simpl. unfold Listener.l_close_begin.
-          destruct (key_of_id id (sessions l)) as [[k x]|] eqn:K; [|intro; apply (Hsame e); auto].
-          destruct (e_dead x); [intro; apply (Hsame e); auto|]. simpl.
-          apply key_of_id_lookup in K; [|apply (inv_keys l Hil)]. destruct K as [Hk Hid].
-          destruct (addr_eqb a k) eqn:Eak.
-          * apply addr_eqb_spec in Eak. subst k.
-            erewrite (lookup_replace_same addr_eqb); eauto. intro He. inversion He; subst e. simpl.
-            apply (Hsame x); auto.
-          * rewrite lookup_replace_other by (intro; subst; rewrite eqb_refl in Eak; discriminate).
-            intro; apply (Hsame e); auto.
+        + pose proof (close_begin_lookup l id a (inv_keys l Hil)) as H. simpl in He. rewrite He in H.
+          destruct (lookup a (sessions l)) as [e1|] eqn:E1; try contradiction.
+          destruct H as [H1 H2]. apply (Hsame e1); auto.
         + revert He. simpl. unfold Listener.l_close_end.
           destruct (pending_addr id (pending l)) as [k|]; [|intro; apply (Hsame e); auto]. simpl.
           destruct (lookup k (sessions l)) as [x|]; [|intro; apply (Hsame e); auto].
           destruct (e_id x =? id); [|intro; apply (Hsame e); auto].
           intro He. apply lookup_remove_some in He. apply (Hsame e); auto.
         + apply (Hsame e); auto.
+        + revert He. simpl. unfold Listener.l_backlog_close.
+          destruct (accepts l) as [|[k id] r] eqn:Ea; [intro; apply (Hsame e); auto|].
+          intro He.
+          pose proof (close_begin_lookup (mkL (sessions l) r (next_id l) (closed l) (pending l)) id a (inv_keys l Hil)) as H.
+          rewrite He in H. simpl in H.
+          destruct (lookup a (sessions l)) as [e1|] eqn:E1; try contradiction.
+          destruct H as [H1 H2]. apply (Hsame e1); auto.
     Qed.
 
     (* the instance the property speaks about: a listener that starts empty *)
@@ -901,7 +942,7 @@ Section Proofs.
         exists c pre raw post data,
           evs = pre ++ EvPacket raw a :: post /\
           wants_session (run l_empty pre) raw a = Some (c, data) /\
-          backlog_full (run l_empty pre) = false /\
+          no_room (run l_empty pre) = false /\
           e_id e = next_id (run l_empty pre) /\
           sess_conv (e_sess e) = c /\
           e_sess e = fold_left sess_input (fed_seq a c post) (sess_input (sess_new c a) data).
